@@ -223,10 +223,12 @@ class Grid(GridBase):
         if check_location and self.data_shape != other.data_shape:
             return False
 
+        # meshes of different sizes can carry equally many data values
         return (
-            np.allclose(self.points, other.points)
-            and np.all(self.cells == other.cells)
-            and np.all(self.cell_types == other.cell_types)
+            np.shape(self.points) == np.shape(other.points)
+            and np.allclose(self.points, other.points)
+            and np.array_equal(self.cells, other.cells)
+            and np.array_equal(self.cell_types, other.cell_types)
         )
 
     def __eq__(self, other):
